@@ -206,8 +206,20 @@ class Env:
 
     def fresh(self, warm, scenario):
         self.counter += 1
-        mod = prorun.load_src(SRC, self.scratch, f"c08m_{self.counter % 40}")
+        # every copy of the program is textually different (a constant in each function) and lives
+        # in its own file: equal code objects of an earlier copy would share codefind's registry
+        # entries (known finding C14 identical-functions-in-two-files...)
+        src = SRC.replace("):\n", f"):\n    _copy = {self.counter}\n")
+        old = getattr(self, "last_module", None)
+        if old is not None:
+            sys.modules.pop(old, None)
+        mod = prorun.load_src(src, self.scratch, f"c08m_{self.counter}")
         sys.modules[mod.__name__] = mod  # absolute references import the module by name
+        self.last_module = mod.__name__
+        try:
+            os.remove(os.path.join(self.scratch, f"c08m_{self.counter - 3}.py"))
+        except OSError:
+            pass
         ns = vars(mod)
         orig = {n: ns[n].__code__ for n in ("f", "g", "h")}
         if warm:
